@@ -207,7 +207,7 @@ pub fn run(ctx: &Ctx) -> i32 {
     }));
     // ... and of generated documents in wild layouts (docs with quotes, backslashes, control and multi-byte characters)
     stats.merge(par_cases(ctx, "documents", ctx.tier.pick(8_000u64, 150_000), Duration::from_secs(ctx.tier.pick(60, 900)), |i, rng, st| {
-        let d = gen::doc(rng, &GenCfg::default());
+        let d = gen::doc(rng, &GenCfg { big: true, deep_types: true, repeat_method_names: true, allow_overflow_codes: true, ..GenCfg::default() });
         let r = gen::render(&d);
         let laid = gen::layout(&r.toks, rng, LayoutStyle::Wild, &r.forced);
         st.case(hash_str(&laid.text), true);
